@@ -63,6 +63,10 @@ var c20Pool = []c20Line{
 	{"{ " + bn.KwPrint + " \"a\"; " + bn.KwBreak + "; }", "runtime", ""},
 	{bn.KwFun + " sb() { " + bn.KwBreak + "; } " + bn.KwPrint + " 1; sb(); " + bn.KwPrint + " 2;", "runtime", ""},
 	{bn.KwPrint + " 1; " + bn.KwPrint + " 2; 3;", "ok", ""},
+	// comparisons of empty containers, literal and held in a variable
+	{"[] == [];", "echo", bn.KwPrint + " [] == [];"},
+	{bn.KwVar + " e = []; e != e;", "echo", bn.KwVar + " e = []; " + bn.KwPrint + " e != e;"},
+	{"({}) == ({});", "echo", bn.KwPrint + " ({}) == ({});"},
 	// a value that contains itself has no finite text: echo and দেখাও report it, the session goes on
 	{bn.KwVar + " cy = [1]; cy[0] = cy; cy;", "runtime", ""},
 	{bn.KwVar + " co = {}; co.co = co; " + bn.KwPrint + " [co];", "runtime", ""},
